@@ -299,7 +299,7 @@ def run(ctx):
                 cc = dict(c)
                 cc['kind'] = kind
                 ctx.violation('%s: %s' % (kind, why), {'case': cc, 'observed': io, 'model': mo, 'why': why})
-    if (not ctx.lean.ok or ctx.disagreements) and not ctx.violations and not ctx.known_hits:
+    if (not ctx.lean.ok or ctx.disagreements) and not ctx.violations:
         common.broken_report(ctx, 'brute-force oracles over {0,1}^n found no failing input among %d cases'
                              % ctx.evaluations)
     return ctx.finish(
